@@ -42,7 +42,11 @@ VQ(ev) ==
         Ok({MId(m) : m \in post[3]} = {MId(m) : m \in kept}, "interval-guids:members"),
         Ok(\A m \in post[3] : \E k \in kept : MId(k) = MId(m) /\ MChildren(k) = MChildren(m), "interval-guids:children-filtered"),
         Ok(\A m \in post[3] : \E k \in kept : MId(k) = MId(m) /\ MS(k) = MS(m) /\ ME(k) = ME(m), "interval-guids:span"),
-        Ok(post[1] = b[1] /\ post[2] = b[2], "interval-guids:bounds") >>)
+        Ok(post[1] = b[1] /\ post[2] = b[2], "interval-guids:bounds"),
+        \* a member that is answered with fewer children is still the same member: every identifier it had (id, symbol,
+        \* locus tag ...) is the one it has in the answer
+        Ok(\A i \in DOMAIN o[2][3] : \E j \in DOMAIN pre[3] : pre[3][j][1] = o[2][3][i][1] /\ SetOf(pre[3][j][7]) = SetOf(o[2][3][i][7]),
+           "interval-guids:identifiers-kept") >>)
   ELSE IF op = "idents" THEN
      IF ~IsVal(o) THEN "identifiers:returns"
      ELSE LET post == Coll(o[2]) kept == {m \in c[3] : Idents(pre, MId(m)) \cap SetOf(ar) # {}} b == SemIdBounds(c, kept) IN FirstBad(<<
